@@ -310,43 +310,44 @@ def configs(ctx: Ctx) -> list[dict[str, Any]]:
             _cfg([W], 1, ticks=1, adv=UNDER, on_tick=True, env_cost=1),
             _cfg([C], 1, ticks=1, adv=OVER, on_tick=True, env_cost=1),
             _cfg([W, W], 1, ticks=1, adv=OVER, on_tick=True, env_cost=1),
-            _cfg([W], 2, ticks=1, adv=OVER, env_cost=1),
-            _cfg([W], 1, ticks=2, adv=OVER, on_tick=True),
+            _cfg([W], 1, ticks=2, adv=OVER, on_tick=True, env_cost=1),
             _cfg([W], 1, delete=True, ticks=1, adv=OVER, on_tick=True, env_cost=1),
             # inline expiry inside get(): clock event free, one preemption
             _cfg([W, W], 1, adv=OVER), _cfg([W], 1, delete=True, adv=OVER),
             # drain + shutdown
-            _cfg([W], 1, shutdown=True), _cfg([W, W], 1, shutdown=True, env_cost=1),
+            _cfg([W], 2, shutdown=True, env_cost=1), _cfg([W, W], 1, shutdown=True, env_cost=1),
             _cfg([W, C], 1, shutdown=True, env_cost=1), _cfg([W], 1, delete=True, shutdown=True, env_cost=1),
             # everything at once, one switch
-            _cfg([W, C], 1, delete=True, ticks=1, adv=OVER, on_tick=True, shutdown=True, env_cost=1),
+            _cfg([W], 1, delete=True, ticks=1, adv=OVER, on_tick=True, shutdown=True, env_cost=1),
         ]
         return out
     two = ([W, W], [W, C], [C, W], [C, C])
-    for reqs in two:
+    for k, reqs in enumerate(two):
+        deep = k < 2  # [W,W] and [W,C] get the expensive bound-2 harnesses, the other two orders bound 1
         out.append(_cfg(reqs, 2))
         out.append(_cfg(reqs, 1, wide=True))
-        out.append(_cfg(reqs, 2, delete=True))
+        out.append(_cfg(reqs, 2 if deep else 1, delete=True))
         out.append(_cfg(reqs, 1, delete=True, wide=True))
-        out.append(_cfg(reqs, 2, ticks=1, adv=OVER, on_tick=True, env_cost=1))
-        out.append(_cfg(reqs, 1, ticks=1, adv=OVER, on_tick=True))
+        out.append(_cfg(reqs, 2 if deep else 1, ticks=1, adv=OVER, on_tick=True, env_cost=1))
         out.append(_cfg(reqs, 2, adv=OVER, env_cost=1))
         out.append(_cfg(reqs, 1, adv=OVER))
-        out.append(_cfg(reqs, 2, shutdown=True, env_cost=1))
-        out.append(_cfg(reqs, 1, shutdown=True))
-        out.append(_cfg(reqs, 2, ticks=1, adv=OVER, env_cost=1))
+        out.append(_cfg(reqs, 2 if deep else 1, shutdown=True, env_cost=1))
+    out.append(_cfg([W, W], 2, ticks=1, adv=OVER, env_cost=1))
     for reqs in ([W], [C]):
         out.append(_cfg(reqs, 2, delete=True))
         out.append(_cfg(reqs, 2, delete=True, wide=True))
-        out.append(_cfg(reqs, 2, ticks=1, adv=OVER))
-        out.append(_cfg(reqs, 2, ticks=2, adv=OVER, env_cost=1))
-        out.append(_cfg(reqs, 2, ticks=1, adv=UNDER))
-        out.append(_cfg(reqs, 2, shutdown=True))
-        out.append(_cfg(reqs, 2, delete=True, ticks=1, adv=OVER, on_tick=True))
-        out.append(_cfg(reqs, 2, delete=True, ticks=1, adv=OVER, env_cost=1))
-        out.append(_cfg(reqs, 2, delete=True, adv=OVER))
+        out.append(_cfg(reqs, 2, ticks=1, adv=OVER, env_cost=1))
+        out.append(_cfg(reqs, 2, ticks=2, adv=OVER, on_tick=True, env_cost=1))
+        out.append(_cfg(reqs, 1, ticks=2, adv=OVER, on_tick=True))
+        out.append(_cfg(reqs, 2, ticks=1, adv=UNDER, env_cost=1))
+        out.append(_cfg(reqs, 1, shutdown=True))
+        out.append(_cfg(reqs, 2, shutdown=True, env_cost=1))
+        out.append(_cfg(reqs, 2, delete=True, ticks=1, adv=OVER, on_tick=True, env_cost=1))
+        out.append(_cfg(reqs, 2, delete=True, adv=OVER, env_cost=1))
+        out.append(_cfg(reqs, 1, delete=True, adv=OVER))
         out.append(_cfg(reqs, 2, delete=True, shutdown=True, env_cost=1))
         out.append(_cfg(reqs, 2, ticks=1, adv=OVER, on_tick=True, shutdown=True, env_cost=1))
+        out.append(_cfg(reqs, 1, delete=True, ticks=1, adv=OVER, on_tick=True, shutdown=True, env_cost=1))
     for reqs in ([W, W, W], [W, W, C], [W, C, W], [C, W, W], [W, C, C]):
         out.append(_cfg(reqs, 1))
         out.append(_cfg(reqs, 1, delete=True))
@@ -354,9 +355,6 @@ def configs(ctx: Ctx) -> list[dict[str, Any]]:
         out.append(_cfg(reqs, 1, shutdown=True, env_cost=1))
     out.append(_cfg([W, W, W], 2))
     out.append(_cfg([W, W, C], 2))
-    out.append(_cfg([W, W], 2, delete=True, ticks=1, adv=OVER, on_tick=True, shutdown=True, env_cost=1))
-    out.append(_cfg([W, C], 2, delete=True, ticks=1, adv=OVER, on_tick=True, shutdown=True, env_cost=1))
-    out.append(_cfg([W, W, C], 1, delete=True, ticks=1, adv=OVER, shutdown=True, env_cost=1))
     return out
 
 
@@ -476,7 +474,10 @@ def monitor(ev: list[tuple[Any, ...]]) -> list[tuple[str, str]]:
                 out.append((f"close-hook-twice:{via}", f"close hook ran a second time (by {who} via {via}) at event {i}"))
             others = {t: m for t, m in active.items() if not (t == who and m == "closing")}
             if others:
-                out.append((f"close-during-dispatch:{via}", f"close hook started (by {who} via {via}) at event {i} while {sorted(others)} dispatching against the session"))
+                # peer-in-body: the other request is plainly inside its method body; peer-in-close_session: it is
+                # inside its own ctx.close_session() call (has released the session lock but not yet removed the entry)
+                mode = "peer-in-body" if "body" in others.values() else "peer-in-close_session"
+                out.append((f"close-during-dispatch:{via}:{mode}", f"close hook started (by {who} via {via}) at event {i} while {sorted(others.items())} dispatching against the session"))
             if close_via is None:
                 close_via = via
     return out
